@@ -1,10 +1,10 @@
 package scen
 
 import (
-	"hash/fnv"
 	"encoding/json"
 	"errors"
 	"fmt"
+	"hash/fnv"
 	"net/http"
 	"strconv"
 	"strings"
@@ -162,14 +162,14 @@ type EpochInfo struct {
 type Engine struct {
 	timeActs     int    // time advances in a row (TimeActions)
 	lastTimeStep uint64 // step of the last one
-	Sim       *sched.Sim
-	H         *Hist
-	Case      *SvcCase
-	Svc       *res.Service
-	Pats      []model.Pat
-	Subs      []*Submission // indexed by op id
-	bySubject map[string]*Submission
-	Epochs    []*EpochInfo
+	Sim          *sched.Sim
+	H            *Hist
+	Case         *SvcCase
+	Svc          *res.Service
+	Pats         []model.Pat
+	Subs         []*Submission // indexed by op id
+	bySubject    map[string]*Submission
+	Epochs       []*EpochInfo
 	// serveTasks[i] calls Serve for epoch i
 	serveTasks []*sched.Task
 	// kept: the request last handled per resource name, kept past the
